@@ -1,19 +1,7 @@
 """registry: property id -> drivers, tiers, evidence wording (read by bin/vcheck)"""
 
-def D(exe, quick=None, thorough=None, shards=16, label=None, tiers=('quick', 'thorough'), variant='plain', interp=None, env=None):
-    def opts(l):
-        out = []
-        for x in (l or []):
-            out += (['--opt', x] if '=' in x and not x.startswith('--') else [x])
-        return out
-    d = {'exe': 'build/%s/%s' % (variant, exe) if '/' not in exe else exe,
-         'args': {'quick': opts(quick), 'thorough': opts(thorough if thorough is not None else quick)},
-         'shards': shards, 'label': label or exe, 'tiers': tiers}
-    if interp:
-        d['interp'] = interp
-    if env:
-        d['env'] = env
-    return d
+import os, glob, importlib.util
+from props_util import D  # noqa
 
 PROPS = {}
 NOT_APPLICABLE = {}
@@ -23,33 +11,12 @@ ENGINES = [
     {'name': 'E1', 'path': 'harness/lib', 'serves_properties': [], 'kind_free_text': 'C drivers that enumerate inputs / operation sequences over the freshly compiled library sources and compare with independent reference models; supervised workers turn crashes and hangs into findings'},
 ]
 
-PROPS['C19'] = {
-    'level': 'exploration',
-    'technique': 'bounded exhaustive enumeration of insertion sequences against a bool[] reference set',
-    'claim': 'Every insertion sequence up to length 3 over the full value range of each of the six containers (thorough; length 2 in quick) plus '
-             'all subsets of a 16-value boundary alphabet in four insertion orders is executed on the real container code and compared with a '
-             'reference set for emptiness, membership and iteration (each member once, nothing else, termination).  Complete within that bound.',
-    'note': 'Sets with more than 3 arbitrary members are covered only over the boundary alphabet; the iteration idiom is the one all callers use.',
-    'rule': 'every insertion sequence listed under "bound", for each of the six containers; a case is one sequence prefix with its '
-            'last element looped inside; distinct by construction (each index is a different sequence set); non-trivial = the '
-            'sequences inside the case that hold >= 2 distinct values (counted per sequence)',
-    'bound': {
-        'quick': 'all sequences of length <= 2 over the full range of each type; all sequences of length 3 and 4 over a 24-value '
-                 'boundary alphabet; all subsets of sizes 0-4 and 11-16 of a 16-value boundary alphabet in 4 insertion orders',
-        'thorough': 'quick + all ordered triples over the full range (767^3 for bi447) + all 65536 subsets of the 16-value alphabet',
-    },
-    'drivers': [
-        D('c19_bitint', ['mode=pairs'], label='pairs'),
-        D('c19_bitint', ['mode=alpha3'], label='alpha3'),
-        D('c19_bitint', ['mode=subsets', 'minsize=0', 'maxsize=4'], label='subsets-small', tiers=('quick',)),
-        D('c19_bitint', ['mode=subsets', 'minsize=11', 'maxsize=16'], label='subsets-large', tiers=('quick',)),
-        D('c19_bitint', ['mode=subsets'], label='subsets-all', tiers=('thorough',)),
-        D('c19_bitint', ['mode=triples'], label='triples', tiers=('thorough',)),
-        D('c19_bitint', ['mode=pairs'], label='pairs-asan', variant='asan', shards=4),
-    ],
-    'assumptions': ['iteration protocol is the one every caller uses: it=0; while ((x = next(&it, set)), it)',
-                    'values stay inside the documented range of each container'],
-}
+
+for _fn in sorted(glob.glob(os.path.join(os.path.dirname(os.path.abspath(__file__)), 'propdefs', 'c*.py'))):
+    _spec = importlib.util.spec_from_file_location('propdef_' + os.path.basename(_fn)[:-3], _fn)
+    _m = importlib.util.module_from_spec(_spec)
+    _spec.loader.exec_module(_m)
+    _m.register(PROPS)
 
 for _e in ENGINES:
     _e['serves_properties'] = sorted(k for k, v in PROPS.items() if v.get('engine', 'E1') == _e['name'])
